@@ -407,6 +407,9 @@ class Circuit:
     def finalize(self) -> None:
         """A wrapper for _finalize()."""
         if not self._finalized:
+            # references by name (event destinations, filter control blocks) may create
+            # the automatic blocks '_ctrl' and '_not_NAME', resolve them before freezing
+            self._resolver.resolve()
             self._finalize()
             self._finalized = True
 
